@@ -142,19 +142,52 @@ def strip_lean_comments(src: str) -> str:
     return ''.join(out)
 
 
-def hygiene_hits() -> T.List[str]:
-    hits = []
-    for root, _d, files in os.walk(LEAN):
-        if '.lake' in root:
+def driver_roots(areas: T.List[str]) -> T.List[str]:
+    """root modules of the driver executables of `areas` (from lakefile.toml)"""
+    txt = open(os.path.join(LEAN, 'lakefile.toml')).read()
+    out = []
+    for a in areas:
+        m = re.search(r'name = "mvdriver-%s"\s*\nroot = "([^"]+)"' % re.escape(a), txt)
+        if m:
+            out.append(m.group(1))
+    return out
+
+
+def import_closure(modules: T.List[str]) -> T.List[str]:
+    """files of the Lean project transitively imported by `modules` (only project-local modules)"""
+    seen: T.Dict[str, str] = {}
+    todo = list(modules)
+    while todo:
+        m = todo.pop()
+        if m in seen:
             continue
-        for f in files:
-            if not f.endswith('.lean'):
+        path = os.path.join(LEAN, m.replace('.', '/') + '.lean')
+        if not os.path.exists(path):
+            continue
+        seen[m] = path
+        for line in open(path, encoding='utf-8'):
+            mm = re.match(r'\s*(?:public\s+)?import\s+(\S+)', line)
+            if mm and (mm.group(1).startswith('MesonModel') or mm.group(1).startswith('Driver')):
+                todo.append(mm.group(1))
+    return sorted(seen.values())
+
+
+def hygiene_hits(modules: T.Optional[T.List[str]] = None) -> T.List[str]:
+    """forbidden constructs (outside comments/strings) in the files the property depends on"""
+    if modules is None:
+        files = []
+        for root, _d, fs in os.walk(LEAN):
+            if '.lake' in root:
                 continue
-            p = os.path.join(root, f)
-            src = strip_lean_comments(open(p, encoding='utf-8').read())
-            for i, line in enumerate(src.split('\n'), 1):
-                if HYGIENE_RE.search(line):
-                    hits.append(f'{os.path.relpath(p, VERIF)}:{i}: {line.strip()[:80]}')
+            files += [os.path.join(root, f) for f in fs if f.endswith('.lean')]
+    else:
+        files = import_closure(modules)
+    hits = []
+    for p in files:
+        src = strip_lean_comments(open(p, encoding='utf-8').read())
+        for i, line in enumerate(src.split('\n'), 1):
+            if HYGIENE_RE.search(line):
+                hits.append(f'{os.path.relpath(p, VERIF)}:{i}: {line.strip()[:80]}')
     return hits
 
 
